@@ -18,7 +18,7 @@ chk("C04", "gbv/streamfsm+lifecycle",
     "exits returns a fresh load of the position cell; the cell is advanced in the commit closure only on the handler-accepted edge, and every exit of commit after that edge has advanced it; only "
     "initialisation, commit and the rotate arm write it; Stream writes the parser's result back on every path and nothing else stores the resume "
     "position; the next attempt starts there; every accepted event reaches the dispatch (no way round the loop skips the checksum stripping except for the format description, "
-    "before a format is known, or for a kind without an arm), so no rotation or commit is lost to the cell; nothing is lost between socket and parser - one ReadPacket per decoder call, outside any loop, and every event read is handed over before the next read (R7); the dump request carries the stored file and offset (C07-R3, included). It does not decide what the master serves between attempts nor run any history.",
+    "before a format is known, or for a kind without an arm), so no rotation or commit is lost to the cell; nothing is lost between socket and parser - one ReadPacket per decoder call, outside any loop, and every event read is handed over before the next read (R7); the dump request carries the stored file and offset (C07-R3, included); a failure inside the parser or the commit closure (handler, table lookup, decode) is tested and ends the attempt, so the loop cannot go on and move the position past a transaction that was not accepted (C06-R3, the parser's instances, included). It does not decide what the master serves between attempts nor run any history.",
     "sync/atomic.Value semantics; handler failures are signalled by the returned error.",
     "DESIGN.md 5/C04")
 
@@ -63,7 +63,7 @@ chk("C05", "gbv/lifecycle",
     "goroutine inventory, blocking-operation classification, a three-state publish/close automaton run as a set-valued dataflow with callee transfer functions, dominance (release on every exit), context provenance, who-writes-what for shared cells; VTA reachability in thorough",
     "Decides the structure that makes termination and cleanup hold under every timing: one goroutine; the handler unreachable from it; every blocking channel operation of the reader "
     "escapable; every reader exit publishes then closes; connection close deferred on every exit after construction and the constructor hands the connection out only with a nil error (closing it otherwise, after the driver connection has been stored in the object or directly); the reader's context derived in Stream with a deferred cancel; Error()'s "
-    "receive nil-guarded and its channel always that of a started reader; shared cells and fields written only before the go statement; the parser's only wait is a select with ctx.Done(); the packet decoder cannot loop over ReadPacket (no retry or skip loop that never reaches a reader exit) and the reader cannot bypass its hand-off (R10). "
+    "receive nil-guarded and its channel always that of a started reader; shared cells and fields written only before the go statement; the parser's only wait is a select with ctx.Done(); the packet decoder cannot loop over ReadPacket (no retry or skip loop that never reaches a reader exit) and the reader cannot bypass its hand-off (R10); the reader goroutine is the only sender on the capacity-1 reason channel, so its one plain send cannot block (R11). "
     "It does not decide wall-clock bounds, stalls inside driver handshake calls, or data races inside the driver.",
     "driver facts listed in DESIGN section 2 (only Close unblocks ReadPacket); sync.Once / context / buffered channel semantics; handler and mapper return.",
     "DESIGN.md 5/C05")
@@ -73,7 +73,7 @@ chk("C06", "gbv/lifecycle+streamfsm",
     "Decides: the parser returns nil only on channel-closed / ctx-done edges and provably non-nil errors elsewhere; Stream never returns a typed nil and returns nil only after the parser did; every "
     "error result on the stream path is tested and propagated (one named exception); the packet decoder wraps the transport error, the master's error packet, and produces the EOF sentinel only for EOF "
     "packets; the reason is published before any channel is closed; Error() can return nil for a received reason only through equality with context.Canceled / errStreamEOF; that sentinel is a value of its own (errors.New / fmt.Errorf, never an alias such as io.EOF) and the "
-    "reason channel is received from only by Error(). Timing (the caller-context "
+    "reason channel is received from only by Error(); every format description is decoded, so its decode failure can be reported (C16-R6, included). Timing (the caller-context "
     "filter in Error()) is not decided.",
     "driver facts (ReadPacket never returns empty slice with nil error; HandleErrorPacket decodes the master's message).",
     "DESIGN.md 5/C06")
@@ -96,10 +96,10 @@ chk("C08", "gbv/ownership",
     "DESIGN.md 5/C08")
 
 chk("C18", "gbv/ownership",
-    "taint fixpoint over SSA for receiver-derived memory + write-instruction check with in-package callee summaries",
+    "taint fixpoint over SSA for receiver-derived memory + write-instruction check with in-package callee summaries; normalised linear form of bound-vs-sequence comparisons",
     "Decides only the immutability clause and two structural preconditions of canonical form: no method of Mysql56GTIDSet (or in-package callee) writes storage reachable from its receiver; AddGTID's "
     "result map and the interval lists stored into it are allocated in the method; the parser sorts interval lists before storing them and SIDs() sorts its result; the comparators used for sorting "
-    "never decide by the sign of a difference that can wrap; Contains never decides on the number of intervals the two sets hold nor accepts an interval by point lookups of its end points (two shortcuts that are wrong for some pair of sets), nor compare full-width unsigned words as signed numbers; set operations keep no package-level state. Set-algebra agreement "
+    "never decide by the sign of a difference that can wrap; Contains never decides on the number of intervals the two sets hold nor accepts an interval by point lookups of its end points (two shortcuts that are wrong for some pair of sets), nor compare full-width unsigned words as signed numbers; no inequality between an interval bound and a sequence number separates members of the (closed) interval from each other - `end > seq`, `start >= seq` and their mirror images put a boundary member among the non-members (R8); the SID-block reader stores every interval it reads (C19-R4 keep-all, included: sets reach the library in that form too); set operations keep no package-level state. Set-algebra agreement "
     "(Contains/Equal/merge correctness) is a statement about values and is not decided.",
     "list of standard-library functions that write through arguments (ownership.go); other stdlib callees do not.",
     "DESIGN.md 5/C18")
@@ -127,7 +127,7 @@ chk("C10", "gbv/cellcodec",
     "H-sccp specialisation per type + canonical value terms (H-term) compared with the documented decoding; operand provenance at the decoder call sites",
     "Decides API-usage and dependence facts without which the text cannot be exact: type, metadata, signedness, name and type are taken at one column ordinal; for each integer width the returns keyed "
     "by the unsigned flag are base-10 text of the little-endian value / of its two's-complement reinterpretation at exactly that width (INT24 sign bit and extension); FLOAT/DOUBLE use AppendFloat('f', -1, 32|64) "
-    "on the little-endian IEEE bits; YEAR, ENUM (also as CHAR real type), BIT and SET shapes; the per-type metadata layout of these types (included: the decode chain of DESIGN 9.5 - C15-R1/R3/R5, C09-R2..R5/R7, C08-R1/R2). The numeric results themselves (strconv, math) are trusted, not decided.",
+    "on the little-endian IEEE bits; YEAR, ENUM (also as CHAR real type), BIT and SET shapes; the unsigned flag is read only by the code of the five integer types - the text of every other type depends on bytes, type and metadata alone (R4); the per-type metadata layout of these types (included: the decode chain of DESIGN 9.5 - C15-R1/R3/R5, C09-R2..R5/R7, C08-R1/R2). The numeric results themselves (strconv, math) are trusted, not decided.",
     "canonical terms are compared syntactically after normalisation; an algebraically different but equivalent decoder needs a table update.",
     "DESIGN.md 5/C10")
 
@@ -136,14 +136,14 @@ chk("C11", "gbv/cellcodec",
     "Decides necessary conditions for every valid (p,s): an integer digit is definitely written before the decimal point and before every success return (zero never decodes to an empty or sign-only value); no "
     "verb pads with spaces; the cursor of each 9-digit-group loop advances by 4 on every way round; after the "
     "'.' exactly the verbs %09d (s/9 times) and %0Nd (N = s mod 9) are reachable, fed by big-endian reads of the tabulated widths, and integer groups use only %09d/%d/strconv; dig2bytes is constant and equals "
-    "MySQL's table; the DECIMAL metadata layout (included: the decode chain of DESIGN 9.5 - C15-R1/R3/R5, C09-R2..R5/R7, C08-R1/R2). The digit arithmetic and negative inversion are not decided.",
+    "MySQL's table; the DECIMAL metadata layout (included: the decode chain of DESIGN 9.5 - C15-R1/R3/R5, C09-R2..R5/R7, C08-R1/R2, C10-R4 no dependence on the unsigned flag). The digit arithmetic and negative inversion are not decided.",
     "fmt verb semantics; strconv.AppendUint yields at least one digit.",
     "DESIGN.md 5/C11")
 
 chk("C12", "gbv/cellcodec",
     "H-sccp per (type, fsp) + reachable-format and argument-term checks; canonical value terms of the fixed layouts compared with the documented packings",
     "Decides: per fsp the only reachable fraction format prints exactly fsp digits of the big-endian fraction bytes (divided by 10 for odd fsp - for TIME2 as the last step, after the borrow for negative values); TIMESTAMP text comes from time.Unix in the local zone with "
-    "the fields in order and the documented zero literal, and no returned text lives in package-level storage (C08-R2, included); the fsp metadata layout (included: the decode chain of DESIGN 9.5 - C15-R1/R3/R5, C09-R2..R5/R7, C08-R1/R2); DATE/NEWDATE/DATETIME/DATETIME2/TIMESTAMP/TIMESTAMP2 extract their fields from the documented bit and decimal packings. TIME/TIME2 sign and hour "
+    "the fields in order and the documented zero literal, and no returned text lives in package-level storage (C08-R2, included); the fsp metadata layout (included: the decode chain of DESIGN 9.5 - C15-R1/R3/R5, C09-R2..R5/R7, C08-R1/R2, C10-R4 no dependence on the unsigned flag); DATE/NEWDATE/DATETIME/DATETIME2/TIMESTAMP/TIMESTAMP2 extract their fields from the documented bit and decimal packings. TIME/TIME2 sign and hour "
     "arithmetic and out-of-range rendering are not decided (a known mis-rendering of negative pre-5.6.4 TIME is outside static reach, see DESIGN).",
     "canonical terms are compared syntactically after normalisation.",
     "DESIGN.md 5/C12")
@@ -153,7 +153,7 @@ chk("C13", "gbv/cellcodec",
     "Decides: for VARCHAR/VAR_STRING/CHAR/blobs/GEOMETRY the value is the direct sub-slice after a prefix whose width follows the declared maximum (thorough: all 65536 metadata values, exhaustive); in the "
     "streamer absent/NULL/value are delivered as {IsEmpty}, {nil data}, {decoder result}, each appended exactly once, and IsEmpty is set nowhere else; the decoder can fail for a string cell only "
     "when the cell does not fit the buffer (never on content, never on an empty value at the end of the image); the column loops leave towards success only when the ordinal reached the column "
-    "count (trailing absent columns are delivered); ordinal/NULL-index bookkeeping of those loops (C09-R3), and the rest of the decode chain of DESIGN 9.5 (C15-R1/R3/R5, C09-R2..R5/R7, C08-R1/R2) are included. Byte equality with the master follows given a "
+    "count (trailing absent columns are delivered); ordinal/NULL-index bookkeeping of those loops (C09-R3), and the rest of the decode chain of DESIGN 9.5 (C15-R1/R3/R5, C09-R2..R5/R7, C08-R1/R2, C10-R4 no dependence on the unsigned flag) are included. Byte equality with the master follows given a "
     "well-formed image and is not decided on its own.",
     "a sub-slice of a non-nil image is non-nil even when empty.",
     "DESIGN.md 5/C13")
@@ -183,7 +183,7 @@ chk("C14", "gbv/dispatch+cellcodec",
     "Decides dispatch completeness and the layout rules of MySQL's binary JSON that do not depend on the document: exactly the declared type codes are handled (containers with the right size class), the "
     "opaque sub-dispatch handles exactly DATE/TIME/DATETIME/NEWDECIMAL on the size-prefixed payload, a value entry is inlined iff its payload fits the entry (2 bytes, 4 in the large format) with the same "
     "printer and width, every offset/size read uses the container's size class except the key length, entry stride 3/5, the offset reader composes 2/4 little-endian bytes, scalar printers render the "
-    "documented widths/signedness; the entry printer never rejects an out-of-line value that starts inside the document (R6); the JSON column's metadata layout (included: the decode chain of DESIGN 9.5 - C15-R1/R3/R5, C09-R2..R5/R7, C08-R1/R2). Rendering of arbitrary documents (nesting, order, offsets, escaping, opaque arithmetic) is not decided.",
+    "documented widths/signedness; the entry printer never rejects an out-of-line value that starts inside the document (R6); the JSON column's metadata layout (included: the decode chain of DESIGN 9.5 - C15-R1/R3/R5, C09-R2..R5/R7, C08-R1/R2, C10-R4 no dependence on the unsigned flag). Rendering of arbitrary documents (nesting, order, offsets, escaping, opaque arithmetic) is not decided.",
     "MySQL json_binary.cc layout constants encoded in rules_c14.go.",
     "DESIGN.md 5/C14")
 
